@@ -104,3 +104,9 @@ package main
 //@ func FSM.applyProto$1
 //@   assert@call Message.ProtoMessage#0 : mod-type: callarg0 == msg && msg.Type == robust.MessageOfDeath
 //@   assert@call LevelDBStore.StoreLogProto#0 : mod-durable: callarg0 == fsm.store && callarg1 == l && msg.Type == robust.MessageOfDeath && l.Index == old(l.Index) && l.Term == old(l.Term) && l.Type == old(l.Type)
+
+// ---------------------------------------------------------------------------
+// C20: the expiration used for compaction is shared between the apply goroutine and Snapshot.
+//@ guard FSM.sessionExpirationDur by FSM.sessionExpirationMu
+//@ func FSM.applyRobustMessage
+//@   requires locks-distinct: i.sessionsMu != i.ConfigMu && i.ConfigMu != i.lastProcessedMu && i.sessionsMu != i.lastProcessedMu && toplevel(i.sessionsMu) && toplevel(i.ConfigMu) && toplevel(i.lastProcessedMu)
